@@ -39,6 +39,14 @@ def discipline_obligations(rep):
                     and isinstance(n.args[0], ast.Constant) and n.args[0].value in ('query', 'unify'):
                 p = parents.get(id(n))
                 ok = isinstance(p, ast.Call) and isinstance(p.func, ast.Name) and p.func.id == 'YPCodeForeach' and p.args and p.args[0] is n
+                if not ok and isinstance(p, ast.Assign) and len(p.targets) == 1 and isinstance(p.targets[0], ast.Name) and p.value is n:
+                    # held in a local first: the local is bound once and read only as the loop expression of YPCodeForeach
+                    v_ = p.targets[0].id
+                    stores = [x for x in core.walk_own(fn) if isinstance(x, ast.Name) and x.id == v_ and isinstance(x.ctx, ast.Store)]
+                    loads = [x for x in core.walk_own(fn) if isinstance(x, ast.Name) and x.id == v_ and isinstance(x.ctx, ast.Load)]
+                    ok = len(stores) == 1 and bool(loads) and all(
+                        isinstance(parents.get(id(x)), ast.Call) and isinstance(parents[id(x)].func, ast.Name)
+                        and parents[id(x)].func.id == 'YPCodeForeach' and parents[id(x)].args and parents[id(x)].args[0] is x for x in loads)
                 if not ok:
                     bad.append('%s line %d: %s' % (fn_name, n.lineno, ast.unparse(n)[:60]))
     rep.add_checked('yp_generator.template.T1.iterators_only_as_foreach_expression', not bad, '; '.join(bad), 'ast',
